@@ -28,22 +28,43 @@ VERIF_DIR = os.path.dirname(os.path.dirname(os.path.dirname(os.path.abspath(__fi
 def corpus_item(corpus_seed, i):
     rng = random.Random(hashlib.sha256(('c04/%d/%d' % (corpus_seed, i)).encode()).digest())
     version = rng.choice(VERSIONS)
+    if rng.random() < 0.05:
+        bad = rng.choice(['1 => zz:f()', '1 => (', '1 => math:', 'a[', '(1', '1 +', 'count(', '$', '1 => zz:f(2)', 'f(1',
+                          "'a' => tns:g()", 'a/', '1 to', 'if (1) then', 'for $x in', 'map{1:', '[1,'])
+        return {'kind': 'bad', 'v': version, 'text': bad, 'i': i}
     if rng.random() < 0.06:
         chains = P.nonassoc_chains(rng, version)
         if chains:
             return {'kind': 'chain', 'v': version, 'text': rng.choice(chains), 'i': i}
     depth = rng.choice([1, 2, 2, 3, 3, 4])
     ast = P.gen_tree(rng, version, depth)
-    return {'kind': 'tree', 'v': version, 'ast': ast, 'layout_seed': rng.randrange(1 << 30),
+    item = {'kind': 'tree', 'v': version, 'ast': ast, 'layout_seed': rng.randrange(1 << 30),
             'redundant': rng.choice([0.0, 0.0, 0.15, 0.4]), 'i': i}
+    if version != '1.0' and rng.random() < 0.2:
+        item['compat'] = True       # the grammar of the selected version holds in compatibility mode too
+    return item
 
 
-def parser_for(v):
+def parser_for(v, compat=False):
     import elementpath
     from elementpath.xpath30 import XPath30Parser
     from elementpath.xpath31 import XPath31Parser
     cls = {'1.0': elementpath.XPath1Parser, '2.0': elementpath.XPath2Parser, '3.0': XPath30Parser, '3.1': XPath31Parser}[v]
+    if compat and v != '1.0':
+        return cls(compatibility_mode=True)
     return cls()
+
+
+SHARED = {}
+
+
+def shared_parser(v, compat=False):
+    """One long-lived parser instance per (version, mode): parse results must not depend on what the
+    instance parsed before (failed parses included)."""
+    key = (v, bool(compat))
+    if key not in SHARED:
+        SHARED[key] = parser_for(v, compat)
+    return SHARED[key]
 
 
 def syntax_tree(parser, text):
@@ -77,18 +98,23 @@ def outcome_of(parser, text, root):
     return rec
 
 
-def process_item(item):
+def process_item(item, history=None):
     """All in-process observations for one corpus item; returns (record, violations)."""
     import xml.etree.ElementTree as ET
     root = ET.fromstring(DOC)
     v = item['v']
-    parser = parser_for(v)
+    compat = bool(item.get('compat'))
+    parser = parser_for(v, compat)
     viol = []
-    feats = ['v' + v]
+    feats = ['v' + v] + (['compatibility-mode'] if compat else [])
 
     def violate(cls, sig, detail, extra=()):
         viol.append({'cls': cls, 'signature': sig, 'detail': detail, 'features': sorted(set(feats) | set(extra))})
 
+    if item['kind'] == 'bad':
+        rec = outcome_of(parser, item['text'], root)
+        used = outcome_of(shared_parser(v, compat), item['text'], root)
+        return {'i': item['i'], 'text': item['text'], 'rec': rec[:2], 'shared': used[:2]}, viol
     if item['kind'] == 'chain':
         rec = outcome_of(parser, item['text'], root)
         if rec[0] == 'ok':
@@ -101,13 +127,22 @@ def process_item(item):
     ast = item['ast']
     rng = random.Random(item['layout_seed'])
     toks = P.tokens(ast, tbl, v, rng, item.get('redundant', 0.0))
+    if any(a in P.TYPES and b in ('*', '+', '?') for a, b in zip(toks, toks[1:])):
+        # extra-grammatical constraint 'occurrence-indicators': a '*' or '+' right after a sequence type is an
+        # occurrence indicator, so this text is not the rendering of the tree; not a test case
+        return {'i': item['i'], 'text': ' '.join(toks), 'rec': ['skipped-occurrence-indicator-ambiguity']}, viol
     canon_text = P.layout(toks, rng, v, 'canon')
     varied_text = P.layout(toks, rng, v, 'varied')
     want = P.expected_tree(ast)
     ops = sorted(set(_ops(ast)))
     feats += ['op:' + o for o in ops]
     rec = outcome_of(parser, canon_text, root)
-    rec_var = outcome_of(parser_for(v), varied_text, root)
+    rec_var = outcome_of(parser_for(v, compat), varied_text, root)
+    used = outcome_of(shared_parser(v, compat), canon_text, root)
+    if used[:3] != rec[:3]:
+        violate('HISTORY', 'long-lived-parser-differs-from-fresh:' + v,
+                'a parser instance that has parsed the earlier corpus items parses %r as %r, a fresh instance as %r' % (
+                    canon_text, used[:3], rec[:3]), ['needs-history'])
     out = {'i': item['i'], 'text': canon_text, 'rec': rec, 'varied': [varied_text, rec_var]}
     if rec[0] != 'ok':
         extra = []
@@ -129,7 +164,7 @@ def process_item(item):
                 '%r parses as %s but %r as %r' % (canon_text, rec[1], varied_text, rec_var[:2]))
     # source round trip
     src = rec[2]
-    rt = outcome_of(parser_for(v), src, root)
+    rt = outcome_of(parser_for(v, compat), src, root)
     out['roundtrip'] = rt
     if rt[0] != 'ok' or rt[1] != rec[1]:
         violate('ROUNDTRIP', 'source-does-not-reparse-to-same-tree:' + v,
@@ -218,6 +253,12 @@ def gen_case(rng, tier):
 
 def run_case(case, world):
     item = case['item']
+    SHARED.clear()
+    for prev in case.get('history', ()):        # the long-lived parsers first see what they saw in the batch
+        try:
+            process_item(prev)
+        except Exception:
+            pass
     rec, viol = process_item(item)
     world.event(('item', rec.get('text')))
     if case.get('hashseeds'):
@@ -300,6 +341,10 @@ def run_check(prop_mod, tier, verif_seed, nruns=None, workers=None, wall_cap=Non
         case, viol, count, i = violations[key]
         if case is None:
             case = {'config': {}, 'item': corpus_item(verif_seed, i), 'hashseeds': []}
+            if key[0] == 'HISTORY':
+                it = case['item']
+                case['history'] = [x for x in (corpus_item(verif_seed, j) for j in range(i))
+                                   if x['v'] == it['v'] and bool(x.get('compat')) == bool(it.get('compat'))]
         st, res = runner.fork_call(lambda: runner.execute(sys.modules[__name__], case), timeout=300)
         fv = None
         if st == 'ok':
